@@ -89,30 +89,28 @@ def state_at(case, ob, step):
 
 
 def to_term(case, ob):
+    """(initial state, operations in order with the recorded outcome): the state is threaded inside Coq (Model.hstep)."""
     if not ob.get("ok"):
-        return []
-    sub, mro, offers = ob["sub"], ob["mro"], list(case["offers"])
-    phases, qs = [], []
-
-    def close():
-        if qs:
-            phases.append(([[bool(x) for x in row] for row in sub], [[Nat(t) for t in row] for row in mro],
-                           [(Nat(f), Nat(t), fac_term(fc)) for f, t, fc in offers], list(qs)))
-            del qs[:]
-
-    for i, (op, o) in enumerate(zip(case["ops"], ob["obs"])):
+        return (C("mkH", [], [], []), [])
+    st = C("mkH", [[bool(x) for x in row] for row in ob["sub"]], [[Nat(t) for t in row] for row in ob["mro"]],
+           [(Nat(f), Nat(t), fac_term(fc)) for f, t, fc in case["offers"]])
+    offers = list(case["offers"])
+    h = []
+    for op, o in zip(case["ops"], ob["obs"]):
         if op[0] == "register":
-            close()
             if o.get("k") == "mut":
-                sub, mro = o["sub"], o["mro"]
+                h.append((C("HTables", [[bool(x) for x in row] for row in o["sub"]], [[Nat(t) for t in row] for row in o["mro"]]),
+                          None))
+            else:                        # refused by Python: nothing changed; keep the position
+                sub, mro, _ = state_at(case, ob, len(h))
+                h.append((C("HTables", [[bool(x) for x in row] for row in sub], [[Nat(t) for t in row] for row in mro]), None))
         elif op[0] == "offer":
-            close()
             offers = offers + [op[1:4]]
+            h.append((C("HOffer", (Nat(op[1]), Nat(op[2]), fac_term(op[3]))), None))
         else:
             src, tgt, flag, api = op
-            qs.append((i, (Nat(src), Nat(tgt), bool(flag), API_T[api]), outcome_term(o, offers)))
-    close()
-    return phases
+            h.append((C("HQuery", (Nat(src), Nat(tgt), bool(flag), API_T[api])), Some(outcome_term(o, offers))))
+    return (st, h)
 
 
 # ---------------------------------------------------------------- keys
